@@ -41,6 +41,10 @@ type Scenario struct {
 	// DeadlockOK etc. are never OK.
 	// Sig reduces a violation to its specific signature (default: kind + first line of detail).
 	Sig func(o *vsched.Outcome) string
+	// OnlyKinds: when set, only outcomes of these kinds ("panic", "deadlock", ...) are violations of
+	// the property this scenario list is run for (a scenario list shared between two properties:
+	// C03 runs C07's session scenarios and cares about crashes only).
+	OnlyKinds []string
 	// Skip shards the scenario list itself: scenario i runs everywhere but explores sharded subtrees.
 }
 
@@ -144,6 +148,14 @@ func cost(c *vsched.Choice, alt int, freeSwitch bool) (p, e int) {
 }
 
 func (x *explorer) isViolation(o *vsched.Outcome) bool {
+	if len(x.sc.OnlyKinds) > 0 {
+		for _, k := range x.sc.OnlyKinds {
+			if o.Kind == k {
+				return true
+			}
+		}
+		return false
+	}
 	if o.Kind != "ok" {
 		return true
 	}
